@@ -21,6 +21,8 @@ RULES = {
     'C03.c': 'watch / unwatch / unwatch-all read-modify-write the watcher list in one critical section of Watchers.map',
     'C03.d': 'every transport ends a session with unwatch-all followed by Client::left (TCP, HTTP, WebSocket)',
     'C03.e': 'unwatch retains exactly the senders that are NOT the caller\'s; watch stores the existing list plus the caller',
+    'C03.f': 'every notification is sent through a fresh clone of the watcher\'s sender (futures mpsc guarantees one slot per sender '
+             'handle: a clone reused for a second send can be refused when the subscriber has a backlog)',
 }
 
 VALUE_MAP = 'std::collections::HashMap::<std::string::String, nundb::bo::Value>::'
@@ -161,6 +163,34 @@ def run(ck, m):
               'a notification at %s can be followed by the error reply built at %s' % bad[0], '%s:%s' % (b.file, b.line))
     ck.floor('C03.b', nb, 3, 'notifying mutators checked for refusal paths')
 
+    # ---- (f) ---------------------------------------------------------------------------
+    from props.C07 import natural_loops
+    nf = 0
+    for nid in sorted(notifiers):
+        b = P.bodies[nid]
+        loops = natural_loops(b)
+        sends = [(bi, t) for bi, t in b.calls() if callee_decl(t).endswith('mpsc::Sender::try_send') and not is_log(t)]
+        used = {}
+        for bi, t in sends:
+            nf += 1
+            clones = [r[1] for r in origins(b, t['args'][0], stop_at_calls=True)
+                      if r[0] == 'call' and callee_decl(b.term(r[1])) == 'std::clone::Clone::clone']
+            ok = bool(clones)
+            why = 'sent through a fresh clone of the sender'
+            if not clones:
+                why = 'try_send on a sender that is not a fresh clone'
+            for c in clones:
+                used.setdefault(c, []).append(bi)
+                for h, body_ in loops:
+                    if bi in body_ and c not in body_:
+                        ok = False
+                        why = 'the sender is cloned once (%s) and reused for several sends in a loop' % b.loc(c)
+            ck.ob('C03.f', short(b.id), 'fresh-clone:%d' % (len([x for x in sends if x[0] <= bi])), ok, why, b.loc(bi))
+        for c, bis in used.items():
+            if len(bis) > 1:
+                ck.ob('C03.f', short(b.id), 'clone-used-once', False,
+                      'one sender clone (%s) feeds %d try_send calls: the second can be refused when the subscriber is behind' % (b.loc(c), len(bis)), b.loc(c))
+    ck.floor('C03.f', nf, 4, 'notification sends')
     # ---- (c) ---------------------------------------------------------------------------
     n = 0
     hit = False
